@@ -20,9 +20,12 @@ import (
 	"bytes"
 	"context"
 	"crypto"
+	"crypto/ecdsa"
 	"crypto/rsa"
 	"crypto/x509"
 	"encoding/json"
+	"errors"
+	"fmt"
 	"io"
 	"net/http"
 	"net/url"
@@ -147,7 +150,31 @@ func (k *workerKey) SignContext(ctx context.Context, digest []byte, opts crypto.
 	if err != nil {
 		return nil, err
 	}
+	// The certificate that will be embedded was matched against k.public. Make
+	// sure the worker signed with that same key, e.g. it was not replaced in
+	// the token after the lookup.
+	if err := checkSignature(k.public, digest, opts, res.Value); err != nil {
+		return nil, fmt.Errorf("key %q: signature does not match the public key that was looked up: %w", k.kconf.Name(), err)
+	}
 	return res.Value, nil
+}
+
+func checkSignature(pub crypto.PublicKey, digest []byte, opts crypto.SignerOpts, sig []byte) error {
+	if opts == nil {
+		return nil
+	}
+	switch p := pub.(type) {
+	case *rsa.PublicKey:
+		if o, ok := opts.(*rsa.PSSOptions); ok {
+			return rsa.VerifyPSS(p, o.Hash, digest, sig, o)
+		}
+		return rsa.VerifyPKCS1v15(p, opts.HashFunc(), digest, sig)
+	case *ecdsa.PublicKey:
+		if !ecdsa.VerifyASN1(p, digest, sig) {
+			return errors.New("ecdsa verification failure")
+		}
+	}
+	return nil
 }
 
 func (k *workerKey) ImportCertificate(cert *x509.Certificate) error {
